@@ -587,6 +587,83 @@ Section BlocksL.
   Qed.
 End BlocksL.
 
+(* ---------- sequences of .T / .I on block-diagonal operators; lazy wrappers as blocks ---------- *)
+Section StepsL.
+  Variable K : Type.
+  Variables (k1 : K) (kmul : K -> K -> K) (kinv : K -> K).
+  Variable keqb : K -> K -> bool.
+  Notation op := (op K).
+  Notation binv := (binv k1 kmul keqb kinv).
+  Notation inverse := (inverse keqb k1 kmul kinv).
+  Notation reduce := (reduce keqb k1 kmul).
+  Notation steps := (steps k1 kmul keqb kinv).
+  Notation square_along := (square_along k1 kmul keqb kinv).
+
+  Theorem lazy_transpose_inverse fuel order i x e' :
+    binv fuel order (Wrap i WTranspose x) = Ok e' ->
+    is_square (Wrap i WTranspose x) = true /\
+    exists r, reduce fuel order (Wrap i WTranspose x) = Ok r /\ e' = Wrap fresh WInverse r.
+  Proof.
+    cbn [BlockMat.binv]. unfold Algebra.inverse. cbn [wcls isinst existsb subclass].
+    replace (isinst CTranspose [CAbstractLazyInverse]) with false by reflexivity.
+    destruct (is_square (Wrap i WTranspose x)) eqn:Es; cbn [negb]; [|discriminate].
+    intros H. split; [reflexivity|].
+    destruct (reduce fuel order (Wrap i WTranspose x)) as [r|er] eqn:Er; cbn in H; [|discriminate].
+    exists r. split; [reflexivity|]. now inversion H.
+  Qed.
+
+  Theorem lazy_inverse_inverse fuel order i w x :
+    isinst (wcls w) [CAbstractLazyInverse] = true -> binv fuel order (Wrap i w x) = Ok x.
+  Proof. intros H. cbn [BlockMat.binv]. unfold Algebra.inverse. now rewrite H. Qed.
+
+  Lemma mapM_ok A (l : list A) : mapM (@Ok A) l = Ok l.
+  Proof. induction l as [|a r IH]; [reflexivity|]. cbn. now rewrite IH. Qed.
+  Lemma mapM_map A B C (g : A -> B) (f : B -> result C) l : mapM f (map g l) = mapM (fun a => f (g a)) l.
+  Proof. induction l as [|a r IH]; [reflexivity|]. cbn. now rewrite IH. Qed.
+  Lemma mapM_bind_ok A B C (f : A -> result B) (g : B -> result C) l : forall l',
+    mapM (fun a => b <- f a ;; g b) l = Ok l' <-> exists m, mapM f l = Ok m /\ mapM g m = Ok l'.
+  Proof.
+    induction l as [|a r IH]; intros l'; cbn.
+    - split; [intros H; exists []; now split|intros (m & Hm & H); inversion Hm; subst; exact H].
+    - destruct (f a) as [b|e]; cbn.
+      2:{ split; [discriminate|intros (m & Hm & _); discriminate]. }
+      destruct (g b) as [c|e] eqn:Eg; cbn.
+      2:{ split; [discriminate|]. intros (m & Hm & H). destruct (mapM f r); cbn in Hm; [|discriminate].
+          inversion Hm; subst. cbn in H. rewrite Eg in H. discriminate. }
+      destruct (mapM (fun a0 => b0 <- f a0 ;; g b0) r) as [cs|e] eqn:Er; cbn.
+      + destruct (proj1 (IH cs) eq_refl) as (m & Hm & Hg). rewrite Hm. cbn. split.
+        * intros H. exists (b :: m). split; [reflexivity|]. cbn. rewrite Eg, Hg. exact H.
+        * intros (m' & Hm' & H). inversion Hm'; subst. cbn in H. rewrite Eg, Hg in H. exact H.
+      + split; [discriminate|]. intros (m & Hm & H). destruct (mapM f r) as [m0|]; cbn in Hm; [|discriminate].
+        inversion Hm; subst. cbn in H. rewrite Eg in H. cbn in H.
+        destruct (mapM g m0) as [cs|] eqn:Eg0; cbn in H; [|discriminate].
+        assert (Hx : Err e = Ok cs) by (apply (proj2 (IH cs)); exists m0; now split).
+        discriminate.
+  Qed.
+
+  (* any sequence of .T / .I on a block-diagonal operator is taken block by block, in the same container, as long as
+     the blocks met by an inverse are square *)
+  Theorem blockdiag_steps fuel order s : forall i td l e',
+    square_along fuel order s l ->
+    (steps fuel order s (Block i BDiag td l) = Ok e' <->
+     exists l', mapM (steps fuel order s) l = Ok l' /\ e' = Block (oid_after s i) BDiag td l').
+  Proof.
+    induction s as [|[|] r IH]; intros i td l e' Hsq.
+    - cbn [steps oid_after]. rewrite mapM_ok. split.
+      + intros H; inversion H; subst. now exists l.
+      + intros (l' & Hl & ->). now inversion Hl.
+    - cbn [steps transpose]. cbn [square_along] in Hsq. rewrite (IH fresh td (map (@transpose K) l) e' Hsq).
+      rewrite mapM_map. destruct r; reflexivity.
+    - cbn [steps]. destruct Hsq as [Hs Hn]. rewrite (blockdiag_inverse K k1 kmul kinv keqb fuel order i td l Hs).
+      split.
+      + intros H. destruct (mapM (binv fuel order) l) as [m|] eqn:Em; cbn in H; [|discriminate].
+        apply (IH fresh td m e' (Hn m eq_refl)) in H as (l' & Hl & ->).
+        exists l'. split; [|destruct r; reflexivity]. apply mapM_bind_ok. now exists m.
+      + intros (l' & Hl & ->). apply mapM_bind_ok in Hl as (m & Hm & Hl). rewrite Hm. cbn.
+        apply (IH fresh td m _ (Hn m Hm)). exists l'. split; [exact Hl|destruct r; reflexivity].
+  Qed.
+End StepsL.
+
 (* ---------- values of a given structure, split along a container ---------- *)
 Section HasS.
   Variable K : Type.
